@@ -2,7 +2,10 @@
 //! prints one canonical observation line per scenario (stdout).  One sub-command per family.
 
 mod util;
+mod rawsock;
+mod rec;
 mod fam_valid;
+mod fam_srv;
 
 use std::io::{self, BufRead, Write};
 
@@ -51,6 +54,7 @@ fn main() {
 fn fam_dispatch(fam: &str, line: &str) -> Option<String> {
     match fam {
         "valid" => Some(fam_valid::run(line)),
+        "srv" => Some(fam_srv::run(line)),
         _ => None,
     }
 }
